@@ -344,6 +344,9 @@ WORLDS = {
     "v2-aes128-retry": dict(version=V2, suite="aes128", retry=True),
     "v2-aes256": dict(version=V2, suite="aes256"),
     "v1-chacha20": dict(version=V1, suite="chacha20"),
+    # compatible version negotiation (RFC 9368): the client starts in v1 but prefers v2, the server
+    # switches, so the client's later Initial packets carry version 2 and need v2 Initial keys.
+    "v1-to-v2-compat": dict(version=V1, suite="aes128", c_supported=[V2, V1], s_supported=[V2, V1]),
 }
 ALTER_WORLDS = ["v1-aes128", "v2-chacha20", "v1-aes256-retry", "v2-aes128-retry"]
 
